@@ -126,6 +126,9 @@ TRUSTED["C15"] = [
 TRUSTED["C19"] = [
     "list lemma A7 (cnt/req enumeration of the kept positions) as the closed form of the filtered appends in flatten_sns_names",
     "f-strings as injective builders of (template, values); strings as an uninterpreted sort with distinct literals",
+    "abstract pandas tables (pyvc/pdmodel.py): a table is (rows, columns, index labels, column labels, provenance of the operation that made it, optionally its cells as strings); "
+    "shapes, emptiness and labels behave as pandas documents; WHAT reindex / sub / fillna / to_numpy / column selection compute is not modelled - only that the result is that "
+    "operation applied to that table with those arguments (their semantics are exercised by the bounded stand-in)",
 ]
 
 TRUSTED["C01"] = [
@@ -201,7 +204,10 @@ ASSUMPTIONS["C15"] = ["setups per PoSER constructor enumerated 0..3 exhaustively
                       "are missing is symbolic", "the history clause (any sequence of add / run / mpe) follows by induction from the per-operation contracts, each proved from an arbitrary state"]
 
 ASSUMPTIONS["C19"] = ["flatten_sns_names: number of setups enumerated (2); names per setup, number and positions of references symbolic",
-                      "everything that goes through pandas (check_on_geo1/2, dfphi_map_func, def_geo1/2) is NOT proved: bounded stand-in on crafted table sets, labelled bounded"]
+                      "check_on_geo1 / check_on_geo2 validation skeleton: sheet sets enumerated (9 + 8 layouts: required only, subsets of optional sheets, INFO, unknown sheet, each required "
+                      "sheet missing); 2 sensor names, 3 coordinate rows / 1 point (3 mapping cells), 1 constraint over 1-2 sensors; every shape, every label and every cell symbolic; mapping "
+                      "cells are given as the strings str(value) yields after missing cells were filled",
+                      "what the pandas operations compute (re-ordering itself, the -1 shift, the mapped shape values), dfphi_map_func and def_geo1/2 are NOT proved: bounded stand-in, labelled bounded"]
 
 ASSUMPTIONS["C01"] = ["SSI_poles: step == 1, no uncertainty propagation (calc_unc=False); model order and channel count symbolic; the realisation hands over one (ii x ii, Nch x ii) pair per order",
                       "exact recovery of the system's parameters is NOT proved: bounded stand-in on synthetic free-vibration data (labelled bounded)"]
@@ -235,8 +241,8 @@ NOT_DECIDED = {
             "the hard-criteria filtering between SSI_poles and the stored tables is C09's subject"],
     "C05": ["that pLSCF's normal equations reproduce the coefficients (least-squares theorem + conditioning): bounded stand-in only",
             "the 'cor' shift of the poles by 1/tau is taken as the code writes it (the property speaks about the plain map)"],
-    "C19": ["validation completeness, re-ordering to the sensor order, zero-based indices, None for omitted sheets and the mapping of a shape to points for ALL tables: "
-            "only the bounded stand-in speaks about them (pandas has no model here)",
+    "C19": ["that reindex(index=names) re-orders rows, sub(1) subtracts one, replace(mapping) substitutes cell by cell (pandas semantics) and hence the mapped mode shape values: "
+            "only the bounded stand-in speaks about them; the contracts prove which operation is applied to which table with which arguments, and the accept / reject decision",
             "the displayed displacement (value x sign, plot_mode) and what matplotlib draws",
             "flatten_sns_names on table inputs (one-row / multi-row DataFrame): bounded stand-in only"],
     "C15": ["save/load round trip and bit-identical reruns on real data: bounded stand-in only (pickle and floating point are outside the contracts)",
